@@ -4,7 +4,11 @@ package main
 // One ServiceEntry-defined service svc.<ns> (port 80 HTTP) with one endpoint = the server workload
 // (labels, tlsMode label), a client sidecar in <clientNs>, a server sidecar on the endpoint's address:
 //
-//	cl <ns> <labels> <clientNs> <kind>   kind: normal | noistio | external | passthrough | ptdisabled
+//	cl <ns> <labels> <clientNs> <kind> <port>
+//	  kind: normal | router (the client is a gateway) | noauto (MeshConfig.enableAutoMtls=false) | noistio |
+//	        external | passthrough | ptdisabled | ptnoistio | drpassthrough | drptdisabled | drdisable | dristio |
+//	        drsubsetdisable | drsubsetfallback (the cluster of subset v1 is looked at)
+//	  port: the service port; service port 81 has TARGET port 8081 (the endpoint / server port)
 //	  -> C=<0|1>   the client's outbound cluster for the service carries a TLS transport socket (CDS)
 //	     E=<0|1|-> the endpoint keeps tlsMode=istio in the client's EDS ("-": the cluster has no EDS endpoints)
 //	     BE=<mode> real BestEffortInferServiceMTLSMode on the client's SidecarScope.AuthnPolicies, real Service
@@ -25,16 +29,25 @@ import (
 	tlsv3 "github.com/envoyproxy/go-control-plane/envoy/extensions/transport_sockets/tls/v3"
 
 	"google.golang.org/protobuf/types/known/structpb"
+	"google.golang.org/protobuf/types/known/wrapperspb"
+	corev1 "k8s.io/api/core/v1"
+	discoveryv1 "k8s.io/api/discovery/v1"
+	metav1 "k8s.io/apimachinery/pkg/apis/meta/v1"
+	"k8s.io/apimachinery/pkg/runtime"
+	"k8s.io/apimachinery/pkg/util/intstr"
 
 	networkingapi "istio.io/api/networking/v1alpha3"
 	"istio.io/istio/pilot/pkg/model"
+	"istio.io/istio/pilot/pkg/xds/endpoints"
 	xdsfake "istio.io/istio/pilot/test/xds"
 	"istio.io/istio/pkg/config"
 	"istio.io/istio/pkg/config/host"
 	"istio.io/istio/pkg/config/mesh"
 	"istio.io/istio/pkg/config/schema/gvk"
+	"istio.io/istio/pkg/ptr"
 	"istio.io/istio/pkg/wellknown"
 	"verifharness/internal/quiet"
+	"verifharness/internal/wire"
 )
 
 func (s *sut) clientE2E(ns string, labels [][2]string, clientNs, kind string, port uint32) string {
@@ -50,8 +63,12 @@ func (s *sut) clientE2E(ns string, labels [][2]string, clientNs, kind string, po
 	if epLabels == nil {
 		epLabels = map[string]string{}
 	}
+	target := port
+	if port == 81 {
+		target = 8081
+	}
 	switch kind {
-	case "noistio":
+	case "noistio", "ptnoistio", "k8snoistio":
 		// no sidecar on the endpoint: no tlsMode label
 	case "ptdisabled", "drptdisabled":
 		epLabels["security.istio.io/tlsMode"] = "disabled"
@@ -60,7 +77,7 @@ func (s *sut) clientE2E(ns string, labels [][2]string, clientNs, kind string, po
 	}
 	se := &networkingapi.ServiceEntry{
 		Hosts:      []string{hostname},
-		Ports:      []*networkingapi.ServicePort{{Number: port, Name: "http", Protocol: "HTTP"}},
+		Ports:      []*networkingapi.ServicePort{{Number: port, TargetPort: target, Name: "http", Protocol: "HTTP"}},
 		Location:   networkingapi.ServiceEntry_MESH_INTERNAL,
 		Resolution: networkingapi.ServiceEntry_STATIC,
 		Endpoints:  []*networkingapi.WorkloadEntry{{Address: serverIP, Labels: epLabels}},
@@ -68,14 +85,66 @@ func (s *sut) clientE2E(ns string, labels [][2]string, clientNs, kind string, po
 	switch kind {
 	case "external":
 		se.Location = networkingapi.ServiceEntry_MESH_EXTERNAL
-	case "passthrough", "ptdisabled":
+	case "passthrough", "ptdisabled", "ptnoistio":
 		se.Resolution = networkingapi.ServiceEntry_NONE
 		se.Addresses = []string{"240.1.1.1"}
 	}
-	cfgs = append(cfgs, config.Config{
-		Meta: config.Meta{GroupVersionKind: gvk.ServiceEntry, Name: "svc", Namespace: ns},
-		Spec: se,
-	})
+	var kubeObjs []runtime.Object
+	if kind == "k8s" || kind == "k8snoistio" {
+		// a Kubernetes Service with a pod behind it (kube registry: tlsMode from the pod's label, targetPort)
+		hostname = "svc." + ns + ".svc.cluster.local"
+		podLabels := map[string]string{}
+		for k, v := range epLabels {
+			podLabels[k] = v
+		}
+		if kind == "k8snoistio" {
+			delete(podLabels, "security.istio.io/tlsMode")
+		}
+		if len(labels) == 0 {
+			podLabels["verif-selector"] = "x" // a Service needs a selector
+		}
+		sel := map[string]string{}
+		for k, v := range podLabels {
+			if k != "security.istio.io/tlsMode" {
+				sel[k] = v
+			}
+		}
+		seen := map[string]bool{}
+		for _, n := range []string{s.root, ns, clientNs} {
+			if !seen[n] {
+				kubeObjs = append(kubeObjs, &corev1.Namespace{ObjectMeta: metav1.ObjectMeta{Name: n}})
+			}
+			seen[n] = true
+		}
+		kubeObjs = append(kubeObjs,
+			&corev1.Pod{
+				ObjectMeta: metav1.ObjectMeta{Name: "pod", Namespace: ns, Labels: podLabels},
+				Spec:       corev1.PodSpec{ServiceAccountName: "sa", NodeName: "node1"},
+				Status: corev1.PodStatus{PodIP: serverIP, PodIPs: []corev1.PodIP{{IP: serverIP}}, Phase: corev1.PodRunning,
+					Conditions: []corev1.PodCondition{{Type: corev1.PodReady, Status: corev1.ConditionTrue}}},
+			},
+			&corev1.Service{
+				ObjectMeta: metav1.ObjectMeta{Name: "svc", Namespace: ns},
+				Spec: corev1.ServiceSpec{
+					Ports:    []corev1.ServicePort{{Name: "http", Port: int32(port), TargetPort: intstr.FromInt32(int32(target))}},
+					Selector: sel, ClusterIP: "10.96.0.9",
+				},
+			},
+			&discoveryv1.EndpointSlice{
+				ObjectMeta:  metav1.ObjectMeta{Name: "svc", Namespace: ns, Labels: map[string]string{discoveryv1.LabelServiceName: "svc"}},
+				AddressType: discoveryv1.AddressTypeIPv4,
+				Endpoints: []discoveryv1.Endpoint{{
+					Addresses: []string{serverIP},
+					TargetRef: &corev1.ObjectReference{Kind: "Pod", Namespace: ns, Name: "pod"},
+				}},
+				Ports: []discoveryv1.EndpointPort{{Name: ptr.Of("http"), Port: ptr.Of(int32(target))}},
+			})
+	} else {
+		cfgs = append(cfgs, config.Config{
+			Meta: config.Meta{GroupVersionKind: gvk.ServiceEntry, Name: "svc", Namespace: ns},
+			Spec: se,
+		})
+	}
 	// DestinationRule kinds: a PASSTHROUGH load balancer (the other passthrough branch of
 	// BestEffortInferServiceMTLSMode) or an explicit client TLS mode
 	var tp *networkingapi.TrafficPolicy
@@ -89,21 +158,45 @@ func (s *sut) clientE2E(ns string, labels [][2]string, clientNs, kind string, po
 	case "dristio":
 		tp = &networkingapi.TrafficPolicy{Tls: &networkingapi.ClientTLSSettings{Mode: networkingapi.ClientTLSSettings_ISTIO_MUTUAL}}
 	}
-	if tp != nil {
+	// subsets: the subset's own TLS mode / the rule-level mode a subset without TLS settings falls back to
+	var subsets []*networkingapi.Subset
+	subsetName := ""
+	switch kind {
+	case "drsubsetdisable":
+		subsetName = "v1"
+		subsets = []*networkingapi.Subset{{Name: "v1", TrafficPolicy: &networkingapi.TrafficPolicy{
+			Tls: &networkingapi.ClientTLSSettings{Mode: networkingapi.ClientTLSSettings_DISABLE},
+		}}}
+	case "drsubsetfallback":
+		subsetName = "v1"
+		tp = &networkingapi.TrafficPolicy{Tls: &networkingapi.ClientTLSSettings{Mode: networkingapi.ClientTLSSettings_ISTIO_MUTUAL}}
+		subsets = []*networkingapi.Subset{{Name: "v1"}}
+	}
+	if tp != nil || subsets != nil {
 		cfgs = append(cfgs, config.Config{
 			Meta: config.Meta{GroupVersionKind: gvk.DestinationRule, Name: "dr", Namespace: ns},
-			Spec: &networkingapi.DestinationRule{Host: hostname, TrafficPolicy: tp},
+			Spec: &networkingapi.DestinationRule{Host: hostname, TrafficPolicy: tp, Subsets: subsets},
 		})
 	}
 	mc := mesh.DefaultMeshConfig()
 	mc.RootNamespace = s.root
-	fs := xdsfake.NewFakeDiscoveryServer(f, xdsfake.FakeOptions{Configs: cfgs, MeshConfig: mc})
+	if kind == "noauto" {
+		mc.EnableAutoMtls = wrapperspb.Bool(false)
+	}
+	fs := xdsfake.NewFakeDiscoveryServer(f, xdsfake.FakeOptions{Configs: cfgs, MeshConfig: mc, KubernetesObjects: kubeObjs})
 	quiet.Silence()
+	clientType := model.SidecarProxy
+	if kind == "router" {
+		clientType = model.Router
+	}
 	client := fs.SetupProxy(&model.Proxy{
-		Type: model.SidecarProxy, ID: "client." + clientNs, ConfigNamespace: clientNs, IPAddresses: []string{clientIP},
+		Type: clientType, ID: "client." + clientNs, ConfigNamespace: clientNs, IPAddresses: []string{clientIP},
 		Metadata: &model.NodeMetadata{Namespace: clientNs},
 	})
 	lm := labelsMap(labels)
+	if kubeObjs != nil && len(labels) == 0 {
+		lm = map[string]string{"verif-selector": "x"} // the pod's labels (no policy selects on this one)
+	}
 	server := fs.SetupProxy(&model.Proxy{
 		Type: model.SidecarProxy, ID: "server." + ns, ConfigNamespace: ns, IPAddresses: []string{serverIP}, Labels: lm,
 		Metadata: &model.NodeMetadata{Namespace: ns, Labels: lm},
@@ -111,7 +204,7 @@ func (s *sut) clientE2E(ns string, labels [][2]string, clientNs, kind string, po
 	push := fs.PushContext()
 
 	// CDS: the client's outbound cluster
-	clusterName := model.BuildSubsetKey(model.TrafficDirectionOutbound, "", host.Name(hostname), int(port))
+	clusterName := model.BuildSubsetKey(model.TrafficDirectionOutbound, subsetName, host.Name(hostname), int(port))
 	c := "-"
 	var theCluster *cluster.Cluster
 	for _, cl := range fs.Clusters(client) {
@@ -131,9 +224,10 @@ func (s *sut) clientE2E(ns string, labels [][2]string, clientNs, kind string, po
 		}
 		for _, l := range cla.Endpoints {
 			for _, lbe := range l.LbEndpoints {
-				e = "0"
-				if lbe.GetMetadata().GetFilterMetadata()["envoy.transport_socket_match"].GetFields()["tlsMode"].GetStringValue() == "istio" {
-					e = "1"
+				// the real reader of the label (isMtlsEnabled) and the field read directly must agree
+				e = wire.B(endpoints.VerifIsMtlsEnabled(lbe))
+				if direct := lbe.GetMetadata().GetFilterMetadata()["envoy.transport_socket_match"].GetFields()["tlsMode"].GetStringValue() == "istio"; wire.B(direct) != e {
+					e = "isMtlsEnabled-disagrees-with-metadata"
 				}
 				// what Envoy does with this endpoint: the FIRST transport socket match of the cluster whose match is
 				// contained in the endpoint's envoy.transport_socket_match metadata, else the cluster's own socket
@@ -154,7 +248,7 @@ func (s *sut) clientE2E(ns string, labels [][2]string, clientNs, kind string, po
 			continue
 		}
 		for _, fc := range l.FilterChains {
-			if fc.GetFilterChainMatch().GetDestinationPort().GetValue() == port {
+			if fc.GetFilterChainMatch().GetDestinationPort().GetValue() == target {
 				chains = append(chains, chainToken(fc))
 			}
 		}
@@ -236,18 +330,44 @@ func (s *sut) clientE2EOracle(f []string, res string, fail func(clause, class, d
 	ns, labels, kind := f[1], parseLabels(f[2]), f[4]
 	p64, _ := strconv.ParseUint(f[5], 10, 32)
 	port := uint32(p64)
+	if port == 81 {
+		port = 8081 // the endpoint port: what the server enforces and what the client must follow
+	}
 	eff := effectiveMode(s.pas, s.root, ns, labels, port)
 	nsLevel := effectiveMode(s.pas, s.root, ns, nil, 0)
 	c, e := field(res, "C"), field(res, "E")
 	// the client originates mutual TLS iff the transport socket Envoy SELECTS for the endpoint is TLS
 	composed := field(res, "X") == "1"
 	detail := fmt.Sprintf("kind %s selected-socket-tls %v cluster-tls %s endpoint-label %s effective %s namespace-level %s chains %s", kind, composed, c, e, eff, nsLevel, field(res, "S"))
+	stat("judged.cl.kind." + kind)
+	stat("judged.cl.effective." + eff + ".namespace-level." + nsLevel)
+	if e != "0" && e != "1" && e != "-" {
+		fail("client-composed", "endpoint-label-readers-disagree", detail)
+		return
+	}
 	switch kind {
-	case "normal":
+	case "normal", "router", "k8s":
 		if composed != (eff != "DISABLE") {
-			fail("client-composed", composedClass(composed, e == "1", eff, nsLevel), detail)
+			class := composedClass(composed, e == "1", eff, nsLevel)
+			if class == "other" && !composed && c == "1" && e == "1" {
+				class = "tls-socket-not-selected-for-labelled-endpoint"
+			}
+			fail("client-composed", class, detail)
 		}
-	case "noistio":
+	case "noauto":
+		// automatic mTLS switched off mesh-wide and no DestinationRule: the client never originates mutual TLS
+		if composed || c != "0" {
+			fail("client-composed", "auto-mtls-although-disabled-in-meshconfig", detail)
+		}
+	case "drsubsetdisable":
+		if composed || c != "0" || e != "0" {
+			fail("client-composed", "destination-rule-subset-disable-not-honoured", detail)
+		}
+	case "drsubsetfallback":
+		if !composed || c != "1" || e != "1" {
+			fail("client-composed", "destination-rule-subset-fallback-not-honoured", detail)
+		}
+	case "noistio", "k8snoistio":
 		// an endpoint without sidecar must never be sent mutual TLS
 		if composed || e != "0" {
 			fail("client-composed", "mtls-to-endpoint-without-sidecar", detail)
@@ -266,8 +386,8 @@ func (s *sut) clientE2EOracle(f []string, res string, fail func(clause, class, d
 		if c != "0" {
 			fail("client-composed", "auto-mtls-to-mesh-external-service", detail)
 		}
-	case "ptdisabled", "drptdisabled":
-		// passthrough to an endpoint that says tlsMode=disabled: no TLS on the cluster
+	case "ptdisabled", "drptdisabled", "ptnoistio":
+		// passthrough to an endpoint that says tlsMode=disabled (or has no sidecar): no TLS on the cluster
 		if c != "0" {
 			fail("client-composed", "passthrough-tls-to-disabled-endpoint", detail)
 		}
